@@ -3,7 +3,7 @@
    check, doExpr, doSet, suffix, final sort + Rearrange) and the template semantics [tden] / [eval_pred].
    Lemmas: Syn/Templates_proofs.v. *)
 From Coq Require Import List ZArith Bool Lia.
-From TM Require Import Syn.Expr Syn.Expand Syn.ExtLang Syn.Expand_global Syn.Templates Syn.Templates_proofs Syn.Templates_global.
+From TM Require Import Syn.Expr Syn.Expand Syn.ExtLang Syn.Expand_global Syn.Templates Syn.Templates_proofs Syn.Templates_global Syn.Templates_perm.
 Import ListNotations.
 Local Open Scope Z_scope.
 
@@ -18,7 +18,11 @@ Local Open Scope Z_scope.
    references in range), evaluated by ./check on every generated model.
    Also proved: the instantiator's predicate evaluation is the declarative one; no_fatal for bound
    predicates/arguments; the per-expression theorem for doExpr (suffix _partial).
-   NOT PROVED / NOT MODELLED: that [inst_checks] holds for every well-formed model; PropagateLookaheads
+   PROVED (this round): the final sort by (nonterminal, suffix) builds a permutation for EVERY model
+   (C14_sort_is_a_permutation: the model's insertion sort permutes 0..n-1 and perm = its inverse), so the side
+   condition shrinks to [inst_checks_core] (no Fatal branch, instances pairwise different, references in range):
+   C14_instantiate_correct_core.
+   NOT PROVED / NOT MODELLED: that [inst_checks_core] holds for every well-formed model; PropagateLookaheads
    (lookahead flags); the bridge from [lfp] to [Derive.derives] is in Props/C13.v for flat tables (the output of
    Instantiate still contains the extended notation, it is the input of Expand).
    READING of disabled alternatives (pinned by syntax/templates_test.go, `F<T>: a ([T] b) a` => `F: a a`):
@@ -35,6 +39,22 @@ Theorem C14_instantiate_correct :
       lfp (nterms m) setden (map val3 (tr_nonterms (instantiate fuel m)))
           (nterms m + Z.of_nat (nth k (inst_perm m (is_list st)) O)) w.
 Proof. intros setden fuel m Hp Hc. apply instantiate_correct; [exact Hp | exact Hc | unfold nterms; lia]. Qed.
+
+(* the permutation built by the final sort is a permutation, for all inputs (it is a sort) *)
+Theorem C14_sort_is_a_permutation :
+  forall m insts, perm_ok (inst_perm m insts) (length insts) = true.
+Proof. exact inst_perm_ok. Qed.
+
+(* Instantiate as a whole, without the side condition on the sort *)
+Theorem C14_instantiate_correct_core :
+  forall setden fuel m,
+    m_params m <> [] -> inst_checks_core fuel m = true ->
+    let st := snd (inst_loop fuel (nterms m) (m_nonterms m) O (inst_start m) []) in
+    forall k cur, nth_error (is_list st) k = Some cur -> forall w,
+      tlfp (nterms m) setden (m_nonterms m) (nterms m + i_nt cur) (i_sig cur) w <->
+      lfp (nterms m) setden (map val3 (tr_nonterms (instantiate fuel m)))
+          (nterms m + Z.of_nat (nth k (inst_perm m (is_list st)) O)) w.
+Proof. intros setden fuel m Hp Hc. apply instantiate_correct_core; [exact Hp | exact Hc | unfold nterms; lia]. Qed.
 
 (* the template language is a solution of the template equations *)
 Theorem C14_template_language_is_a_solution :
@@ -84,12 +104,14 @@ Example C14_example :
   /\ pred_bound [(0, s_true); (1, s_false)] (PAnd [PEq 0 s_true; PNot (PEq 1 s_true)]) = true.
 Proof. vm_compute. repeat split; reflexivity. Qed.
 
-Example C14_example_checks : inst_checks 100 ex_tm = true /\ m_params ex_tm <> [] /\
+Example C14_example_checks : inst_checks 100 ex_tm = true /\ inst_checks_core 100 ex_tm = true /\ m_params ex_tm <> [] /\
   is_list (snd (inst_loop 100 (nterms ex_tm) (m_nonterms ex_tm) O (inst_start ex_tm) [])) =
     [mkInst 0 []; mkInst 1 [(0, s_true); (1, s_false)]; mkInst 1 [(0, s_false); (1, s_false)]].
-Proof. split; [vm_compute; reflexivity|]. split; [discriminate | vm_compute; reflexivity]. Qed.
+Proof. split; [vm_compute; reflexivity|]. split; [vm_compute; reflexivity|]. split; [discriminate | vm_compute; reflexivity]. Qed.
 
 Print Assumptions C14_instantiate_correct.
+Print Assumptions C14_sort_is_a_permutation.
+Print Assumptions C14_instantiate_correct_core.
 Print Assumptions C14_template_language_is_a_solution.
 Print Assumptions C14_predicate_evaluation.
 Print Assumptions C14_instantiate_preserves_partial.
